@@ -51,6 +51,7 @@ type session struct {
 	manifest       *journal.Writer
 	manifestWriter storage.Writer
 	manifestFd     storage.FileDesc
+	manifestFailed bool // the last write to the current manifest failed; need external synchronization
 
 	stCompPtrs  []internalKey // compaction pointers; need external synchronization
 	stVersion   *version      // current version
@@ -227,7 +228,10 @@ func (s *session) commit(r *sessionRecord, trivial bool) (err error) {
 	if s.manifest == nil {
 		// manifest journal writer not yet created, create one
 		err = s.newManifest(r, nv)
-	} else if s.manifest.Size() >= s.o.GetMaxManifestFileSize() {
+	} else if s.manifestFailed || s.manifest.Size() >= s.o.GetMaxManifestFileSize() {
+		// Also taken after a failed manifest write: the journal writer keeps
+		// its first error forever (and the file may end in a partial record),
+		// so retrying on it could never succeed; start a fresh manifest instead.
 		// Pass a sessionRecord without tables to avoid over-reference table file,
 		// but keep the journal and sequence numbers carried by this commit.
 		nr := &sessionRecord{}
